@@ -1,6 +1,7 @@
 import Vorbis.File.Model
+import Vorbis.Props.C07
 namespace Vorbis.Props.C08
-open Vorbis Vorbis.File Vorbis.Block
+open Vorbis Vorbis.File Vorbis.Block Vorbis.Props Vorbis.Props.C07
 set_option linter.unusedSimpArgs false
 
 /-- an out-of-range sample position is refused by the page seek and nothing at all is changed -/
@@ -70,5 +71,162 @@ theorem C08_link_lookup (pl : Array Int) (links : Nat) (pos : Int) (hl : 0 < lin
 
 
 example : linkFor #[0, 10, 0, 5, 0, 7] 3 15 = (2, 15) ∧ linkFor #[0, 10, 0, 5, 0, 7] 3 14 = (1, 10) ∧ linkFor #[0, 10, 0, 0, 0, 7] 3 10 = (2, 10) := by decide
+
+theorem verdict_land (pos total : Int) (link : Nat) (cur : Cur) (os : OStream) (po : Int) (l : Nat) (c : Cur) (o : OStream) (p : Int)
+    (h : (if po > pos ∨ pos > total then SeekPlan.failSel link cur os OV_EFAULT else SeekPlan.land link cur os po) = .land l c o p) :
+    p ≤ pos ∧ pos ≤ total := by
+  split at h
+  · cases h
+  · rename_i hc
+    injection h with h1 h2 h3 h4
+    subst h4
+    omega
+
+/-- the result verification of `ov_pcm_seek_page`: a plan that lands puts the position at or before the target, and the target inside the file -/
+theorem C08_plan_lands_at_or_before (ph : Phys) (t : Tab) (pos : Int) (link : Nat) (cur : Cur) (os : OStream) (po : Int)
+    (h : planSeekPage ph t pos = .land link cur os po) : po ≤ pos ∧ pos ≤ sumAll t := by
+  unfold planSeekPage at h
+  simp only [] at h
+  split at h
+  · cases h
+  · split at h
+    · split at h
+      · split at h
+        · cases h
+        · exact verdict_land _ _ _ _ _ _ _ _ _ _ h
+      · cases h
+    · split at h
+      · cases h
+      · split at h
+        · exact verdict_land _ _ _ _ _ _ _ _ _ _ h
+        · cases h
+        · split at h <;> cases h
+
+/-- ... and carried out on any handle it returns 0 and leaves exactly that position, in the link the plan names -/
+theorem C08_page_seek_lands_at_or_before (ph : Phys) (f : Int → M Int) (pos : Int) (s : VF)
+    (hr : s.ready ≥ OPENED) (hs : s.seekable = true) (hp : 0 ≤ pos ∧ pos ≤ sumAll s.tab)
+    (link : Nat) (cur : Cur) (os : OStream) (po : Int) (hplan : planSeekPage ph s.tab pos = .land link cur os po) :
+    ((pcmSeekPage ph f pos).run s).1 = 0 ∧ ((pcmSeekPage ph f pos).run s).2.pcm_offset = po ∧
+    ((pcmSeekPage ph f pos).run s).2.current_link = link ∧ po ≤ pos := by
+  have ta := pcmTotal_all s hr hs
+  have h1 : ¬ (s.ready < OPENED) := by omega
+  have n1 : ¬ (pos < 0) := by omega
+  have n2 : ¬ (pcmTotal s (-1) < pos) := by rw [ta]; omega
+  have e : (pcmSeekPage ph f pos).run s =
+      (0, { (selectLinkF link { s with offset := cur.off, fill := cur.fill }) with os := os, pcm_offset := po }) := by
+    unfold pcmSeekPage
+    simp [StateT.run, bind, StateT.bind, get, getThe, MonadStateOf.get, StateT.get, pure, StateT.pure, h1, hs, n1, n2, hplan,
+      execPlan, setCur, selectLink, modify, modifyGet, MonadStateOf.modifyGet, StateT.modifyGet]
+  rw [e]
+  refine ⟨rfl, rfl, ?_, (C08_plan_lands_at_or_before ph s.tab pos link cur os po hplan).1⟩
+  simp only [selectLinkF]
+  split
+  · rfl
+  · rename_i hc
+    simp only []
+    have : (link : Int) = s.current_link := by
+      by_cases e : (link : Int) = s.current_link
+      · exact e
+      · exact absurd (Or.inl e) hc
+    exact this.symm
+
+def Reached (pos : Int) (s : VF) : Prop := s.pcm_offset = FUEL ∨ s.vd = none ∨ shr (pos - s.pcm_offset) s.hs ≤ 0
+
+theorem run_bind_post {α β : Type} (P : VF → Prop) (m : M α) (k : α → M β) (s : VF) (h : ∀ a s', P ((k a).run s').2) :
+    P ((m >>= k).run s).2 := by
+  show P ((StateT.bind m k) s).2
+  unfold StateT.bind
+  simp only [bind]
+  cases hm : m s with
+  | mk a s' => exact h a s'
+
+theorem run_get_bind {β : Type} (k : VF → M β) (s : VF) : ((get >>= k).run s) = (k s).run s := rfl
+
+theorem skip_reaches (ph : Phys) (pos : Int) : ∀ (fuel : Nat) (s : VF), Reached pos ((pcmSeekTail.skip ph pos fuel).run s).2 := by
+  intro fuel
+  induction fuel with
+  | zero =>
+      intro s
+      left
+      simp [pcmSeekTail.skip, StateT.run, modify, modifyGet, MonadStateOf.modifyGet, StateT.modifyGet, pure, StateT.pure]
+  | succ f ih =>
+      intro s
+      unfold pcmSeekTail.skip
+      rw [run_get_bind]
+      simp only []
+      by_cases ht : shr (pos - s.pcm_offset) s.hs ≤ 0
+      · simp only [ht, if_true]
+        exact Or.inr (Or.inr ht)
+      · simp only [ht, if_false]
+        cases hv : s.vd with
+        | none => exact Or.inr (Or.inl hv)
+        | some d =>
+            simp only []
+            generalize (if d.pcmout > shr (pos - s.pcm_offset) s.hs then shr (pos - s.pcm_offset) s.hs else d.pcmout) = n
+            apply run_bind_post
+            intro _ s1
+            split
+            · apply run_bind_post
+              intro r s2
+              split
+              · apply run_bind_post
+                intro _ s3
+                exact ih s3
+              · exact ih s2
+            · exact ih s1
+
+theorem run_bind_from {α β : Type} (P : β × VF → Prop) (m : M α) (k : α → M β) (s : VF)
+    (h : ∀ a s', m.run s = (a, s') → P ((k a).run s')) : P ((m >>= k).run s) := by
+  show P ((StateT.bind m k) s)
+  unfold StateT.bind
+  simp only [bind]
+  cases hm : m s with
+  | mk a s' => exact h a s' hm
+
+/-- **the sample seek never stops short**: when the second half of `ov_pcm_seek` (discard whole packets, then decode and drop samples)
+    returns 0, the position is within one output sample of the target from below or beyond it — or there is no decoder (end of data) -/
+theorem C08_seek_tail_not_short (ph : Phys) (pos : Int) (s : VF) :
+    ((pcmSeekTail ph pos).run s).1 = 0 → Reached pos ((pcmSeekTail ph pos).run s).2 := by
+  unfold pcmSeekTail
+  apply run_bind_from (fun r => r.1 = 0 → Reached pos r.2)
+  intro r3 s1 _
+  split
+  · rename_i h
+    intro h0
+    exact absurd h0 h
+  · apply run_bind_from (fun r => r.1 = 0 → Reached pos r.2)
+    intro _ s2 hs2
+    intro _
+    have := skip_reaches ph pos (2 * ph.work) s1
+    rw [hs2] at this
+    exact this
+
+theorem shl_shr_le (x : Int) (k : Nat) : shl (shr x k) k ≤ x := by
+  unfold shl shr
+  have hp : (0 : Int) < 2 ^ k := by
+    have : (0:Int) < 2 := by decide
+    exact Int.pow_pos this
+  exact Int.ediv_mul_le x (by omega)
+
+/-- the consuming step of the skip loop never overshoots: dropping at most `(pos - position) >> hs` output samples moves the
+    position by at most `pos - position` -/
+theorem C08_skip_step_never_overshoots (pos off n : Int) (hs : Nat) (hn : n ≤ shr (pos - off) hs) :
+    off + shl n hs ≤ pos := by
+  have h1 := shl_shr_le (pos - off) hs
+  have h2 : shl n hs ≤ shl (shr (pos - off) hs) hs := by
+    unfold shl
+    have hp : (0 : Int) ≤ 2 ^ hs := by
+      have : (0:Int) < 2 := by decide
+      exact Int.le_of_lt (Int.pow_pos this)
+    exact Int.mul_le_mul_of_nonneg_right hn hp
+  omega
+
+/-- non-vacuity: the landing plan of the five-page example file of Props/C07 (target 200 lands at 192) -/
+example : ∃ l c o, planSeekPage C07.exPhys C07.exTab 200 = .land l c o 192 := by
+  obtain ⟨l, c, o, po, h⟩ := C07.isLand_iff _ (show C07.SeekPlan.isLand (planSeekPage C07.exPhys C07.exTab 200) = true by decide +kernel)
+  have hp : po = 192 := by
+    have : (match planSeekPage C07.exPhys C07.exTab 200 with | .land _ _ _ p => p | _ => -7) = 192 := by decide +kernel
+    rw [h] at this; exact this
+  exact ⟨l, c, o, hp ▸ h⟩
 
 end Vorbis.Props.C08
